@@ -131,14 +131,35 @@ func (e *Engine) ObserveUpstream() {
 // ObserveAnnotations reads annotations that are explicitly set in an annotation.Val, corresponding
 // to syntactically provided annotations rather than default values.
 func (e *Engine) ObserveAnnotations(pkgAnnotations *annotation.ObservedMap) {
+	// The annotations are stored in Go maps, whose iteration order is random, while the order in
+	// which the sites are observed is visible in the exported facts (insertion order of the
+	// inferred map). So we first collect the explicitly set annotations and then observe them in
+	// a deterministic order: by file name and offset of the annotated object (note that token.Pos
+	// values are not stable across runs since files may be added to the file set in any order),
+	// then by the representation of the site, then shallow before deep.
+	type annotatedSite struct {
+		site primitiveSite
+		val  bool
+	}
+	var sites []annotatedSite
 	pkgAnnotations.Range(func(key annotation.Key, isDeep bool, val bool) {
-		site := e.primitive.site(key, isDeep)
-		if val {
-			e.observeSiteExplanation(site, TrueBecauseAnnotation{AnnotationPos: site.Position})
-		} else {
-			e.observeSiteExplanation(site, FalseBecauseAnnotation{AnnotationPos: site.Position})
-		}
+		sites = append(sites, annotatedSite{site: e.primitive.site(key, isDeep), val: val})
 	})
+	slices.SortStableFunc(sites, func(a, b annotatedSite) int {
+		return cmp.Or(
+			cmp.Compare(a.site.Position.Filename, b.site.Position.Filename),
+			cmp.Compare(a.site.Position.Offset, b.site.Position.Offset),
+			cmp.Compare(a.site.Repr, b.site.Repr),
+			cmp.Compare(fmt.Sprint(a.site.IsDeep), fmt.Sprint(b.site.IsDeep)),
+		)
+	})
+	for _, s := range sites {
+		if s.val {
+			e.observeSiteExplanation(s.site, TrueBecauseAnnotation{AnnotationPos: s.site.Position})
+		} else {
+			e.observeSiteExplanation(s.site, FalseBecauseAnnotation{AnnotationPos: s.site.Position})
+		}
+	}
 }
 
 // mapGuardMissingAndReturnToFuncSite returns two maps:
